@@ -64,4 +64,10 @@ MUTANTS = [
         param_dict.setdefault('url', None)""")]},
     {'name': 'benign-local-list-of-ids', 'expect': 'silent',
      'edits': [E(A, "        all_senses = [s['id'] for s in _senses(entry)]", "        all_senses = [s['id'] for s in _senses(entry)]\n        all_senses.sort()")]},
+    {'name': 'single-file-route-lmf-only', 'expect': 'C07-R6',
+     'edits': [E(P, "            if lmf.is_lmf(decompressed) or _ili.is_ili(decompressed):", "            if lmf.is_lmf(decompressed):")]},
+    {'name': 'collection-skips-hidden-directories', 'expect': 'C07-R6',
+     'edits': [E(P, "                if is_package_directory(path)]", "                if is_package_directory(path) and not path.name.startswith('.')]")]},
+    {'name': 'package-files-by-suffix', 'expect': 'C07-R6',
+     'edits': [E(P, "            typ = _resource_file_type(p)\n", "            if p.suffix not in ('.xml', '.tsv'):\n                continue\n            typ = _resource_file_type(p)\n")]},
 ]
